@@ -278,29 +278,10 @@ func runC04(c *Ctx) {
 
 	// ---------- R-reply-count ----------
 	R.Rule("R-reply-count", "E2 path counting with callee summaries", "exactly one final reply on every entry-to-exit path of the dispatcher and of each command handler (intermediate 354/334 excluded; I/O-failure paths exempt)", 9)
-	rc := &replyCounter{c: c, memo: map[*ssa.Function]*CountResult{}}
-	totalPaths := 0
-	for _, fn := range []string{"(*Conn).handle", "(*Conn).handleGreet", "(*Conn).handleMail", "(*Conn).handleRcpt", "(*Conn).handleData", "(*Conn).handleDataLMTP", "(*Conn).handleBdat", "(*Conn).handleAuth", "(*Conn).handleStartTLS"} {
-		f := c.A.Func(fn)
-		if f == nil {
-			continue
-		}
-		res := rc.count(f)
-		totalPaths += acyclicPaths(f)
-		d := ""
-		ok := res.Min == 1 && res.Max == 1
-		if !ok {
-			mx := fmt.Sprint(res.Max)
-			if res.Max < 0 {
-				mx = "unbounded"
-			}
-			d = fmt.Sprintf("paths through %s emit between %d and %s final replies (fewest: return at %s; most: return at %s)", fn, res.Min, mx, c.P.InstrPos(res.MinExit), c.P.InstrPos(res.MaxExit))
-		}
-		R.Ob(fn+"/final replies per path", c.P.Pos(f.Pos()), ok, d)
-	}
-	R.Extra["acyclic_paths_enumerated"] = totalPaths
+	ruleReplyCountFor(c, []string{"(*Conn).handle", "(*Conn).handleGreet", "(*Conn).handleMail", "(*Conn).handleRcpt", "(*Conn).handleData", "(*Conn).handleDataLMTP", "(*Conn).handleBdat", "(*Conn).handleAuth", "(*Conn).handleStartTLS"})
 
 	R.Rule("R-rcpt-loop-reply", "E2", "per-recipient reply loops range over the recipients and emit exactly one reply per iteration", 2)
+	rc := &replyCounter{c: c, memo: map[*ssa.Function]*CountResult{}}
 	for _, f := range c.P.AllFuncs() {
 		if !strings.HasPrefix(funcName(f), "(*Conn).") {
 			continue
@@ -500,6 +481,8 @@ func runC04(c *Ctx) {
 	}
 
 	ruleResetEffects(c)
+	R.Rule("R-state-writers", "who-may-write", "the delivery result channel is installed only together with the pipe in handleBdat", 1)
+	c.obWriters("Conn.dataResult", "one result channel per chunked message", "(*Conn).handleBdat")
 
 	// ---------- R-go-capture ----------
 	ruleGoCapture(c)
@@ -705,4 +688,31 @@ func ruleDataErrorToStatus(c *Ctx) {
 			}
 		})
 	}
+}
+
+// ruleReplyCountFor: exactly one final reply on every path through each of the named handlers (shared by C04 and,
+// for handleBdat, by C05).
+func ruleReplyCountFor(c *Ctx, fns []string) {
+	R := c.R
+	rc := &replyCounter{c: c, memo: map[*ssa.Function]*CountResult{}}
+	totalPaths := 0
+	for _, fn := range fns {
+		f := c.A.Func(fn)
+		if f == nil {
+			continue
+		}
+		res := rc.count(f)
+		totalPaths += acyclicPaths(f)
+		d := ""
+		ok := res.Min == 1 && res.Max == 1
+		if !ok {
+			mx := fmt.Sprint(res.Max)
+			if res.Max < 0 {
+				mx = "unbounded"
+			}
+			d = fmt.Sprintf("paths through %s emit between %d and %s final replies (fewest: return at %s; most: return at %s)", fn, res.Min, mx, c.P.InstrPos(res.MinExit), c.P.InstrPos(res.MaxExit))
+		}
+		R.Ob(fn+"/final replies per path", c.P.Pos(f.Pos()), ok, d)
+	}
+	R.Extra["acyclic_paths_enumerated"] = totalPaths
 }
